@@ -41,6 +41,29 @@ def permutations_of(t, limit, r):
     r.shuffle(out)
     return out[:limit]
 
+def shape_twins(r, n):
+    """trees with two arms made of the same residues and the same linkages, one branched and one linear:
+    R[ X[A(3), B(4)] (3) , X[A(3)[B(4)]] (6) ] -- anything that summarises a subtree without its shape confuses them"""
+    out = []
+    for _ in range(n):
+        x = r.choice(["GlcNAc", "Man", "Gal", "Glc"])
+        a, b = r.sample(["Fuc", "Gal", "Man", "Glc", "Xyl", "Rha"], 2)
+        la, lb = r.choice("ab"), r.choice("ab")
+        lx = r.choice("ab")
+        pa, pb = r.sample([3, 4], 2) if x != "GlcNAc" else (3, 4)
+        if pb not in T.RES[a][1]:
+            pa, pb = pb, pa
+        if pb not in T.RES[a][1] or pa not in T.RES[x][1] or pb not in T.RES[x][1]:
+            continue
+        branched = T.Node(x, [(la, 1, pa, T.Node(a)), (lb, 1, pb, T.Node(b))])
+        linear = T.Node(x, [(la, 1, pa, T.Node(a, [(lb, 1, pb, T.Node(b))]))])
+        arms = [(lx, 1, 3, branched), (lx, 1, 6, linear)]
+        if r.random() < 0.5:
+            arms.reverse()
+            arms = [(arms[0][0], 1, 3, arms[0][3]), (arms[1][0], 1, 6, arms[1][3])]
+        out.append(T.Node(r.choice(["Gal", "Man", "Glc"]), arms))
+    return out
+
 
 def make_trees(r, tier):
     n = 24 if tier == "quick" else 200
@@ -51,6 +74,7 @@ def make_trees(r, tier):
         t = T.random_tree(r, size, names=names, p_branch=0.75)
         if any(len(k.kids) >= 2 for k in all_nodes(t)):
             trees.append(t)
+    trees += shape_twins(r, 6 if tier == "quick" else 60)
     # four substituents on a non-root and on the root residue, nested
     four = T.Node("Glc", [("b", 1, 4, T.Node("Man", [("a", 1, 2, T.Node("Gal")), ("a", 1, 3, T.Node("Fuc")), ("b", 1, 4, T.Node("Xyl")), ("a", 2, 6, T.Node("Neu5Ac"))]))])
     trees.append(four)
